@@ -982,6 +982,11 @@ def c14(run):
         g = [lex[run.rng.choice(voc)] for _k in range(run.rng.randint(3, 12))]
         scs2 = recovery_scenario(frames[slot]["pre"], g, frames[slot]["suf"], run.rng, run.rng.choice(["spaces", "mixed"]), f"rnd-rec-{slot}")
         run.add([scs2])
+    # three fixed instances of the recorded finding (so that it is reported in every tier)
+    fr = frames["re1"]
+    for g in ([lex["ANNOTATION"], lex["("], lex["IDENT"]], [lex["IDENT"], lex["="], lex["INTEGER"], lex["ANNOTATION"], lex["("], lex["IDENT"]],
+              [lex["ANNOTATION"], lex["("], lex["IDENT"], lex["="], lex["INTEGER"]]):
+        run.add([recovery_scenario(fr["pre"], g, fr["suf"], run.rng, "spaces", "fixed-rec-re1")])
     run.rule = ("TLC enumerates MC_Slots in 'recover' mode: 11 frames (interface / parcelable / enum bodies with 0-3 well-formed "
                 "siblings before and after the slot) x every garbage member G up to length 2 (quick) / 3 (thorough) over the "
                 "vocabulary without the item's terminators and braces, followed by its normal terminator; plus random garbage of "
@@ -1209,3 +1214,23 @@ def selftest():
         rc = 2
     print("selftest ok: every corrupted trace was rejected at the corrupted event" if rc == 0 else "selftest FAILED")
     return rc
+
+
+@matcher("c14_unclosed_annotation_paren_in_enum")
+def m_c14(kf, fail, sc, evs):
+    """Known finding: in an ENUM body, a malformed element that opens an annotation parenthesis and does not close it
+    (`@A ( x` + `,`): the terminating `,` is read as the separator of annotation parameters, so the parser only notices
+    at a later token - the Error lies after the terminator and elements after it can be swallowed. Nothing else is excused."""
+    ev = next((e for e in evs if e.get("n") == fail["n"] and e["ev"] == "add" and "garbage" in e), None)
+    if not ev or "pieces" not in ev:
+        return False
+    pcs = ev["pieces"]
+    g1, g2 = ev["garbage"]
+    toks_before = [p[0] for p in pcs[:g1 - 1] if p[0] not in ("WS", "LCOM", "BCOM", "DOC")]
+    if "ENUM" not in toks_before or "{" not in toks_before:
+        return False
+    g = [p[0] for p in pcs[g1 - 1:g2 - 1] if p[0] not in ("WS", "LCOM", "BCOM", "DOC")]
+    for i in range(len(g) - 1):
+        if g[i] == "ANNOTATION" and g[i + 1] == "(" and ")" not in g[i + 2:]:
+            return True
+    return False
